@@ -149,6 +149,11 @@ pub struct Obs {
 }
 
 impl Obs {
+	/// an observation with the given findings treated as open (used by the libFuzzer targets, which
+	/// tolerate the open findings in-target so that a campaign does not rediscover them forever)
+	pub fn with_open(ids: &[&str]) -> Obs {
+		Obs { open: ids.iter().map(|s| s.to_string()).collect(), ..Obs::default() }
+	}
 	pub fn label(&mut self, l: impl Into<String>) {
 		self.labels.push(l.into());
 	}
